@@ -125,11 +125,25 @@ ExtCases ==
   \cup {ExtCase(<< Dir("imp", <<>>, "n", "", "n", <<>>) >>, LibL, << TQ("n", "nf", <<>>) >>, << Dir("inc", <<>>, "m", "", "", s) >>) :
           s \in {<<>>, << SP("rel", << "." >>) >>, << SP("rel", << "..", "x" >>) >>, << SP("rel", << "sub" >>) >>, << SP("rel", << "nowhere" >>), SP("rel", << ".." >>) >>}}
 
+\* the same relative data path, written the same way in two modules of different directories, names two different files
+DataCases ==
+  LET here == << SP("rel", << "." >>) >>
+      getd == << TDef("get", <<>>, TVar("d")) >>
+  IN {[files |-> {<< "w", "lib", "a.jq" >>, << "w", "lib", "sub", "b.jq" >>, << "w", "lib", "d.json" >>, << "w", "lib", "sub", "d.json" >>},
+       mod |-> {[path |-> << "w", "lib", "a.jq" >>, dirs |-> << Dir("dat", <<>>, "d", "", "d", here) >>, defs |-> getd],
+                [path |-> << "w", "lib", "sub", "b.jq" >>, dirs |-> << Dir("dat", <<>>, "d", "", "d", here) >>, defs |-> getd]},
+       data |-> {[path |-> << "w", "lib", "d.json" >>, vals |-> << IntV(1) >>], [path |-> << "w", "lib", "sub", "d.json" >>, vals |-> << IntV(2), StrV(Ascii("two")) >>]},
+       L |-> LibL,
+       main |-> [dir |-> Cwd, file |-> FALSE, dirs |-> ds, defs |-> <<>>], globals |-> <<>>,
+       probes |-> << TArr(TComma(TQ("a", "get", <<>>), TQ("b", "get", <<>>))), TQ("b", "get", <<>>), TQ("a", "get", <<>>) >>] :
+      ds \in {<< Dir("imp", <<>>, "a", "", "a", <<>>), Dir("imp", << "sub" >>, "b", "", "b", <<>>) >>,
+              << Dir("imp", << "sub" >>, "b", "", "b", <<>>), Dir("imp", <<>>, "a", "", "a", <<>>) >>}}
+
 Cases == CASE Suite = "graph" -> {[c EXCEPT !.main = [c.main EXCEPT !.dir = Cwd]] @@ [probes |-> Probes] : c \in GraphCases}
            [] Suite = "cyclic" -> {c @@ [probes |-> << TC0("f"), TNum(1) >>] : c \in CyclicCases}
            [] Suite = "leak" -> LeakCases
            [] Suite = "search" -> SearchCases
-           [] Suite = "ext" -> ExtCases
+           [] Suite = "ext" -> ExtCases \cup DataCases
 
 VARIABLE done
 vars == << lvars, done >>
